@@ -816,4 +816,40 @@ theorem subst_comm_needs_fresh_plugs :
     substE 0 (.evar 1) (substE 1 (.sym 5) (.evar 0)) ≠ substE 1 (.sym 5) (substE 0 (.evar 1) (.evar 0)) := by decide
 
 
+/-! ## instantiation is the identity where there is no metavariable -/
+
+/-- instantiation only touches metavariables: on a pattern without metavariables (and hence without pending substitutions)
+both implementations return the pattern itself, for every map -/
+theorem inst_id_of_concrete (θ : VId → Option Pat) : ∀ p : Pat, concrete p = true → inst θ p = some p := by
+  intro p; induction p with
+  | imp l r ihl ihr => intro hc; simp [concrete] at hc; simp [inst, ihl hc.1, ihr hc.2]
+  | app l r ihl ihr => intro hc; simp [concrete] at hc; simp [inst, ihl hc.1, ihr hc.2]
+  | ex x q ih => intro hc; simp [concrete] at hc; simp [inst, ih hc]
+  | mu X q ih => intro hc; simp [concrete] at hc; simp [inst, ih hc]
+  | evar _ => intro _; simp [inst]
+  | svar _ => intro _; simp [inst]
+  | sym _ => intro _; simp [inst]
+  | _ => intro hc; simp [concrete] at hc
+
+theorem py_inst_id_of_concrete (θ : VId → Option Pat) (p : Pat) (hc : concrete p = true) : Py.inst θ p = p :=
+  py_inst_eq_rust θ p p (inst_id_of_concrete θ p hc)
+
+/-- and the Rust text of `instantiate_in_place` leaves such a pattern as it is, whatever the variable and plug lists -/
+theorem RShape_of_concrete : ∀ p : Pat, concrete p = true → p.RShape = true := by
+  intro p; induction p with
+  | imp l r ihl ihr => intro hc; simp [concrete] at hc; simp [RShape, ihl hc.1, ihr hc.2]
+  | app l r ihl ihr => intro hc; simp [concrete] at hc; simp [RShape, ihl hc.1, ihr hc.2]
+  | ex x q ih => intro hc; simp [concrete] at hc; simp [RShape, ih hc]
+  | mu X q ih => intro hc; simp [concrete] at hc; simp [RShape, ih hc]
+  | evar _ => intro _; simp [RShape]
+  | svar _ => intro _; simp [RShape]
+  | sym _ => intro _; simp [RShape]
+  | _ => intro hc; simp [concrete] at hc
+
+theorem rust_instantiate_text_id_of_concrete (vars : List VId) (plugs : List Pat) (hlen : vars.length = plugs.length)
+    (p : Pat) (hc : concrete p = true) :
+    Gen.Rust.instantiate_in_place vars plugs p = some p := by
+  rw [rust_instantiate_text_is_the_model vars plugs hlen p (RShape_of_concrete p hc)]; exact inst_id_of_concrete _ p hc
+
+
 end C11
